@@ -1,6 +1,9 @@
 package gen
 
-import "fmt"
+import (
+	"fmt"
+	"strings"
+)
 
 const HelperDecls = `func mks(n int) []int {
 	s := make([]int, 0, n+2)
@@ -351,7 +354,32 @@ func (c *fctx) rangeStmt() []*S {
 			p := r.Perm(len(outs))
 			loop.Name, loop.Name2, loop.Op = outs[p[0]], outs[p[1]], "="
 			c.g.mark("range_assign_form")
+			// exactly one variable: 'for k = range x' / 'for _, v = range x'
+			switch r.Intn(3) {
+			case 1:
+				loop.Name2 = ""
+				c.g.mark("range_assign_form_key_only")
+			case 2:
+				loop.Name = "_"
+				c.g.mark("range_assign_form_value_only")
+			}
 		}
+	}
+	// an '=' form assigns to variables that exist before and after the loop: a closure created
+	// before the loop sees every per-iteration assignment, and the last one survives the loop
+	var assignPre, assignIn, assignPost *S
+	if loop.Op == "=" {
+		var reads []string
+		for _, n := range []string{loop.Name, loop.Name2} {
+			if n != "" && n != "_" {
+				reads = append(reads, "int("+n+")")
+			}
+		}
+		id := c.g.id()
+		assignPre = &S{K: SRaw, ID: id, Src: fmt.Sprintf("seen%d := func() int { return %s }", id, strings.Join(reads, "*31 + "))}
+		assignIn = &S{K: SRaw, ID: c.g.id(), Src: fmt.Sprintf("vrt.E(%d, seen%d())", c.g.nextTag(), id)}
+		assignPost = &S{K: SRaw, ID: c.g.id(), Src: fmt.Sprintf("vrt.E(%d, seen%d(), %s)", c.g.nextTag(), id, strings.Join(reads, ", "))}
+		pre = append(pre, assignPre)
 	}
 	var body []*S
 	if typedAssignUse != nil {
@@ -424,6 +452,9 @@ func (c *fctx) rangeStmt() []*S {
 			inner = append(inner[:pos:pos], append([]*S{mut}, inner[pos:]...)...)
 		}
 	}
+	if assignIn != nil {
+		body = append([]*S{assignIn}, body...)
+	}
 	loop.Body = append(body, inner...)
 	if hasYield(loop.Body) {
 		c.g.mark("range_body_yields")
@@ -432,7 +463,10 @@ func (c *fctx) rangeStmt() []*S {
 		// the variable keeps the last key after the loop
 		after := c.fresh(intPool)
 		c.sc.declare(after, vInt)
-		return append(pre, loop, &S{K: SDecl, ID: c.g.id(), Name: after, E: &X{K: XRaw, S: "int(" + loop.Name + ")"}})
+		return append(pre, loop, assignPost, &S{K: SDecl, ID: c.g.id(), Name: after, E: &X{K: XRaw, S: "int(" + loop.Name + ")"}})
+	}
+	if assignPost != nil {
+		return append(pre, loop, assignPost)
 	}
 	return append(pre, loop)
 }
